@@ -24,13 +24,14 @@ def grid_dims(prog: Program, C: ClassInfo) -> Optional[Tuple[Term, Term]]:
     """(rows, columns) of the mask grid: the two self attributes a torch.zeros mask is created with."""
     for fi in C.methods.values():
         fa = fa_of(prog, fi)
-        for n, c in fa.calls_named("zeros"):
-            args = list(c.args)
-            if len(args) == 1 and isinstance(args[0], ast.Tuple):
-                args = list(args[0].elts)
-            ts = [fa.sym.term(a, n) for a in args[:2]]
-            if len(ts) == 2 and all(t[0] == "self" for t in ts):
-                return ts[0], ts[1]
+        for ctor in ("zeros", "ones", "full", "empty"):
+            for n, c in fa.calls_named(ctor):
+                args = list(c.args) or [k.value for k in c.keywords if k.arg == "size"]
+                ts = [fa.sym.term(a, n) for a in args[:2]]
+                if ts and ts[0][0] == "tuple" and len(ts[0][1]) == 2:
+                    ts = list(ts[0][1])  # the size given as one tuple (possibly through a local)
+                if len(ts) >= 2 and all(t[0] == "self" for t in ts[:2]):
+                    return ts[0], ts[1]
     return None
 
 
@@ -56,14 +57,22 @@ def block_bounds(prog: Program, rep: Report, C: ClassInfo, fi: FuncInfo, clause:
             if not (isinstance(x, ast.Subscript) and isinstance(x.slice, ast.Tuple) and len(x.slice.elts) == 2):
                 continue
             for axis, s in enumerate(x.slice.elts):
-                if not (isinstance(s, ast.Slice) and _n(s.lower) in draws and s.upper is not None):
+                if not (isinstance(s, ast.Slice) and s.lower is not None and s.upper is not None):
                     continue
-                ov = _n(s.lower)
+                low = fa.expand(s.lower, n)  # copies of the drawn offset (parameter / tuple forwarding) are looked through
+                if _n(low) not in draws:
+                    continue
+                ov = _n(low)
                 if (ov, axis) in seen:
                     continue
                 seen.add((ov, axis))
                 dn, call = draws[ov]
                 lo, hi = (call.args + [None, None])[:2] if len(call.args) >= 2 else (None, call.args[0] if call.args else None)
+                kw = {k.arg: k.value for k in call.keywords}
+                if "high" in kw:
+                    lo, hi = kw.get("low", call.args[0] if call.args else None), kw["high"]
+                elif "low" in kw and not call.args:
+                    lo, hi = None, kw["low"]  # integers(low=n) draws from [0, n)
                 if hi is None:
                     continue
                 # extent = upper - lower
@@ -107,128 +116,188 @@ def run(prog: Program, rep: Report, tier: str):
 
 
 def dino(prog: Program, rep: Report):
-    prog = prog.raw  # _generate_mask / _mask_block are summarised as units (budget handed over, count returned)
+    """Works on the normal form: the private helpers that generate one mask are inlined into collate, so the roles are found by
+    data flow inside one function (whatever the helpers are called, and whether they exist at all)."""
     C = prog.cls("KDDinoMaskCollator")
-    rep.rule("G8.dino-budget", "KDDinoMaskCollator: masks are generated only for the first int(batch_size * num_views * mask_prob) "
-             "entries of a list of batch_size * num_views empty masks (all others stay empty); _generate_mask hands _mask_block the "
-             "remaining budget total - done and adds exactly the count it returns; in _mask_block every write to the mask is "
-             "dominated by the test that the block's unmasked patches do not exceed the remaining budget, and the returned count "
-             "is incremented exactly where a patch is newly set")
+    rep.rule("G8.dino-budget", "KDDinoMaskCollator (helpers inlined): masks are generated only for the first int(batch_size * num_views "
+             "* mask_prob) entries of a list of batch_size * num_views empty masks (all others stay empty); every write into such a "
+             "mask is dominated by the test 'unmasked patches of the block <= T - D', T being the sampled budget of that mask "
+             "(int(<draw> * num_patches)) and D the running count of that mask; every write happens under 'this patch is still "
+             "unmasked' together with an increment of the block's count by one, and D grows by exactly that count")
     co = C.methods.get("collate")
     rep.require(co is not None, "anchor-missing: KDDinoMaskCollator.collate")
     fa = fa_of(prog, co)
     cfg = fa.cfg
     rep.analysed_add("functions", f"{co.module.relpath}:{co.qualname}")
-    gm = [(n, c) for n, c in fa.calls_named("_generate_mask")]
+    _returns_batch(rep, fa, co, "C17.5")
+    # ---- the list of masks and the loop that fills a prefix of it --------------------------------------------------------
+    mask_lists = {}
+    for n, var, val in fa.stores():
+        if isinstance(val, ast.ListComp) and len(val.generators) == 1 and any(
+                isinstance(y, ast.Call) and isinstance(y.func, ast.Attribute) and y.func.attr == "zeros" for y in ast.walk(val.elt)):
+            mask_lists[var] = (n, val)
+    # writes into a mask: element stores on a variable that refers to <mask list>[<loop variable>]
+    writes = []  # (node, mask variable, list name, index term, loop next node)
+    for n, var, val in fa.stores():
+        if not var.endswith("[]") or "." in var:
+            continue
+        mv = var[:-2]
+        ref = fa.referent(ast.Name(mv, ast.Load()), n)
+        if isinstance(ref, ast.Subscript) and isinstance(ref.value, ast.Name) and ref.value.id in mask_lists:
+            writes.append((n, mv, ref.value.id, ref.slice))
+    if not writes:
+        # masks[i][..] = .. written directly, or helpers that could not be inlined
+        for n, nd in cfg.nodes.items():
+            st = nd.ast if nd.kind == "stmt" else None
+            if isinstance(st, ast.Assign) and isinstance(st.targets[0], ast.Subscript) and isinstance(st.targets[0].value, ast.Subscript) \
+                    and isinstance(st.targets[0].value.value, ast.Name) and st.targets[0].value.value.id in mask_lists:
+                writes.append((n, None, st.targets[0].value.value.id, st.targets[0].value.slice))
+    if not writes or not mask_lists:
+        rep.unk("G8.dino-budget", co, "masked-subset", "mask generation of unrecognised shape (helpers not inlinable, or the masks are "
+                "not a list of zero tensors filled in place)", clause="C17.1")
+        rep.unk("G8.dino-budget", co, "write-guard", "no in-place write into a mask of the list found", clause="C17.2")
+        return
+    lst = writes[0][2]
+    ln_, lc = mask_lists[lst]
+    # the loop whose variable indexes the list
+    idx_names = {y.id for y in ast.walk(writes[0][3]) if isinstance(y, ast.Name)}
+    loops = [(t_, cfg.nodes[t_]) for t_, lab in cfg.control_predicates(writes[0][0]) if cfg.nodes[t_].kind == "next" and lab is True
+             and idx_names & {y.id for y in ast.walk(cfg.nodes[t_].owner.target) if isinstance(y, ast.Name)}]
+    if not loops:
+        # the mask is not selected by a loop variable: judge against the outermost loop that encloses the generation
+        loops = [(t_, cfg.nodes[t_]) for t_, lab in cfg.control_predicates(writes[0][0]) if cfg.nodes[t_].kind == "next"
+                 and lab is True and isinstance(cfg.nodes[t_].owner.target, ast.Name)][:1]
     ok = None
     why = "mask generation loop of unrecognised shape"
-    if len(gm) == 1:
-        n, c = gm[0]
-        loops = [t_ for t_, lab in cfg.control_predicates(n) if cfg.nodes[t_].kind == "next" and lab is True]
-        if loops:
-            LN = loops[-1]
-            nd = cfg.nodes[LN]
-            it = fa.sym.term(nd.owner.iter, cfg.stmt_node[nd.owner])
-            I = ("var", _n(nd.owner.target), frozenset({LN}))
-            a0 = fa.sym.term(c.args[0], n) if c.args else None
-            # range(int(batch_size * self.num_views * self.mask_prob))
-            budget = None
-            if it[0] == "call" and it[1] == ("global", "range") and len(it[2]) == 1:
-                b = it[2][0]
-                if b[0] == "call" and b[1] == ("global", "int") and len(b[2]) == 1:
-                    budget = term_to_poly(b[2][0])
-            want_atoms = {("self", "num_views"), ("self", "mask_prob")}
-            good_budget = budget is not None and want_atoms <= set(budget.atoms()) and len(budget.terms) == 1 and \
-                len(budget.atoms()) == 3 and all(p_ == 1 for mono in budget.terms for _, p_ in mono)
-            good_target = a0 is not None and a0[0] == "sub" and a0[2] == I
-            # the list of masks: batch_size * num_views entries
-            total_ok = False
-            if good_target and a0[1][0] == "var":
-                for d in a0[1][2]:
-                    val = cfg.def_value(d, a0[1][1])
-                    if isinstance(val, ast.ListComp):
-                        rt = fa.sym.term(val.generators[0].iter, d)
-                        if rt[0] == "call" and rt[1] == ("global", "range") and len(rt[2]) == 1:
-                            tp = term_to_poly(rt[2][0])
-                            total_ok = ("self", "num_views") in tp.atoms() and ("self", "mask_prob") not in tp.atoms() \
-                                and len(tp.terms) == 1
-            ok = good_budget and good_target and total_ok
-            why = "masks[i] for i in range(int(batch_size * num_views * mask_prob)) out of batch_size * num_views empty masks" if ok \
-                else ("; ".join(x for x in (None if good_budget else f"the number of generated masks is {show(it)[:80]}, not "
-                                            "range(int(batch_size * num_views * mask_prob))",
-                                            None if good_target else "the generated mask is not masks[i] of the loop index",
-                                            None if total_ok else "the mask list does not have batch_size * num_views entries") if x))
+    LN = None
+    if loops:
+        LN, nd = loops[0]
+        it = fa.sym.term(nd.owner.iter, cfg.stmt_node[nd.owner])
+        budget = None
+        if it[0] == "call" and it[1] == ("global", "range") and len(it[2]) == 1:
+            b_ = it[2][0]
+            if b_[0] == "call" and b_[1] == ("global", "int") and len(b_[2]) == 1:
+                budget = term_to_poly(b_[2][0])
+        want_atoms = {("self", "num_views"), ("self", "mask_prob")}
+        good_budget = budget is not None and want_atoms <= set(budget.atoms()) and len(budget.terms) == 1 and \
+            len(budget.atoms()) == 3 and all(p_ == 1 for mono in budget.terms for _, p_ in mono)
+        tgt_names = [y.id for y in ast.walk(nd.owner.target) if isinstance(y, ast.Name)]
+        good_target = isinstance(writes[0][3], ast.Name) and writes[0][3].id in tgt_names[:1]
+        counted_otherwise = not (it[0] == "call" and it[1] == ("global", "range"))
+        rt = fa.sym.term(lc.generators[0].iter, ln_)
+        total_ok = False
+        if rt[0] == "call" and rt[1] == ("global", "range") and len(rt[2]) == 1:
+            tp = term_to_poly(rt[2][0])
+            total_ok = ("self", "num_views") in tp.atoms() and ("self", "mask_prob") not in tp.atoms() and len(tp.terms) == 1
+        ok = good_budget and good_target and total_ok
+        if counted_otherwise and good_target and total_ok:
+            ok = None  # the number of generated masks is fixed by the length of another sequence (e.g. the ratio bins)
+        why = "masks[i] for i in range(int(batch_size * num_views * mask_prob)) out of batch_size * num_views empty masks" if ok \
+            else ("; ".join(x for x in (None if good_budget else f"the number of generated masks is {show(it)[:80]}, not "
+                                        "range(int(batch_size * num_views * mask_prob))",
+                                        None if good_target else "the generated mask is not masks[i] of the loop index",
+                                        None if total_ok else "the mask list does not have batch_size * num_views entries") if x))
     rep.decide(ok, "G8.dino-budget", co, "masked-subset", why, why, clause="C17.1")
-    _returns_batch(rep, fa, co, "C17.5")
-    gmf = C.methods.get("_generate_mask")
-    if gmf is not None:
-        ga = fa_of(prog, gmf)
-        rep.analysed_add("functions", f"{gmf.module.relpath}:{gmf.qualname}")
-        ps = gmf.params()
-        calls = [(n, c) for n, c in ga.calls_named("_mask_block")]
-        ok = None
-        if len(calls) == 1 and len(ps) >= 3:
-            n, c = calls[0]
-            rem = term_to_poly(ga.sym.term(c.args[1], n)) if len(c.args) > 1 else None
-            st = ga.cfg.nodes[n].ast
-            dv = _n(st.targets[0]) if isinstance(st, ast.Assign) else None
-            total = ("param", ps[2])
-            dones = [a for a in (rem.atoms() if rem is not None else []) if a[0] == "var"]
-            good_rem = rem is not None and len(dones) == 1 and rem == Poly.atom(total) - Poly.atom(dones[0])
-            acc = dones[0][1] if dones else None
-            incs = [(m, e) for m, op, e in ga.updates(acc or "", ops=(ast.Add,))]
-            good_acc = len(incs) == 1 and _n(incs[0][1]) == dv
-            ok = good_rem and good_acc
-        rep.decide(ok, "G8.dino-budget", gmf, "remaining-budget", "_mask_block(mask, total - done); done += returned count",
-                   "_generate_mask does not pass total - done as the remaining budget, or does not add exactly the returned count",
-                   clause="C17.1")
-    mb = C.methods.get("_mask_block")
-    rep.require(mb is not None, "anchor-missing: KDDinoMaskCollator._mask_block")
-    ma = fa_of(prog, mb)
-    mcfg = ma.cfg
-    rep.analysed_add("functions", f"{mb.module.relpath}:{mb.qualname}")
-    ps = mb.params()
-    writes = [n for n, var, val in ma.stores() if var == f"{ps[1]}[]"]
-    budget_tests = []
-    for n, nd in mcfg.nodes.items():
-        if nd.kind == "test":
-            t = ma.sym.term(nd.ast, n)
-            if t[0] in ("lt", "le") and ("param", ps[2]) in leaves(t):
-                budget_tests.append((n, t))
-    ok = None
-    why = "budget guard not recognised"
-    if writes and not budget_tests:
-        ok = False
-        why = ("no test compares the block's unmasked patches with the remaining budget before the mask is written: a block can "
-               "mask more patches than the sampled ratio allows (the upper mask ratio can be exceeded)")
-    if writes and budget_tests:
-        ok = True
-        for w in writes:
-            guarded = False
-            for n, t in budget_tests:
-                # on the path to the write the block's unmasked count <= remaining:  not (unmasked > remaining)
-                for t_, lab in mcfg.control_predicates(w):
-                    if t_ == n:
-                        cond = t if lab else negate(t)
-                        p = term_to_poly(cond[1])
-                        # cond: unmasked - remaining <= 0
-                        if cond[0] == "le" and p.coeff_of(("param", ps[2])).const_value() == -1:
-                            guarded = True
-            ok = ok and guarded
-        why = "every mask write is reached only when the block's unmasked patches fit the remaining budget" if ok else \
-            "a write to the mask is reachable without the test 'unmasked patches in block <= remaining budget': more patches are " \
-            "masked than the sampled ratio allows (the upper mask ratio can be exceeded)"
-    rep.decide(ok, "G8.dino-budget", mb, "write-guard", why, why, clause="C17.2")
-    # delta counts exactly the new patches
-    rets = [t for _, t in ma.returns() if t is not None]
-    dvar = rets[0][1] if rets and rets[0][0] == "var" else None
-    incs = [m for m, op, e in ma.updates(dvar or "", ops=(ast.Add,))]
-    ok = bool(writes) and len(incs) == len(writes) and all(ma.conds_at(i) == ma.conds_at(w) for i, w in zip(sorted(incs), sorted(writes))) \
-        and all(any(c[0] == "eq" for c in ma.conds_at(w)) for w in writes)
-    rep.decide(ok, "G8.dino-budget", mb, "count-new-patches", "the returned count grows by one exactly where an unmasked patch is set",
-               "the returned count is not incremented exactly where a previously unmasked patch is set: the remaining-budget "
-               "accounting of _generate_mask drifts", clause="C17.2")
-    n_b = block_bounds(prog, rep, C, mb, "C17.3")
+    # ---- budget guard of every write ------------------------------------------------------------------------------------------
+    body = cfg.nodes_inside(cfg.nodes[LN].owner.body) if LN is not None else set(cfg.nodes)
+    # T: locals of the outer iteration defined as int(<draw> * self.num_patches); D: locals initialised to 0 in the outer iteration
+    # and updated additively in an inner loop
+    T_vars, D_vars = set(), set()
+    for n, var, val in fa.stores():
+        if n not in body or val is None or "." in var or var.endswith("[]"):
+            continue
+        t = fa.sym.term(val, n)
+        if t[0] == "call" and t[1] == ("global", "int") and len(t[2]) == 1 and ("self", "num_patches") in term_to_poly(t[2][0]).atoms():
+            T_vars.add(var)
+        if t == ("const", 0) and fa.updates(var, ops=(ast.Add,)):
+            D_vars.add(var)
+    guard_ok = True
+    guard_why = []
+    n_guarded = 0
+    for w, mv, _, _ in writes:
+        found = False
+        for e, pol, c, tn in fa.cond_parts_at(w):
+            if c[0] not in ("le", "lt"):
+                continue
+            p_ = term_to_poly(c[1])
+            tv = [a_ for a_ in p_.atoms() if (a_[0] == "var" and a_[1] in T_vars) or (
+                a_[0] == "call" and a_[1] == ("global", "int") and len(a_[2]) == 1
+                and ("self", "num_patches") in term_to_poly(a_[2][0]).atoms())]
+            dv = [a_ for a_ in p_.atoms() if a_[0] == "var" and a_[1] in D_vars]
+            if len(tv) == 1 and len(dv) == 1 and p_.coeff_of(tv[0]).const_value() == -1 and p_.coeff_of(dv[0]).const_value() == 1:
+                # U - T + D <= 0 : the block's unmasked patches fit the remaining budget
+                rest = p_ + Poly.atom(tv[0]) - Poly.atom(dv[0])
+                if c[0] == "le" and not rest.is_const():
+                    found = True
+        n_guarded += found
+        if not found:
+            guard_ok = False
+            guard_why.append(f"the write at line {fa.line(w)}")
+    if not T_vars or not D_vars:
+        rep.unk("G8.dino-budget", co, "write-guard", "sampled budget / running count of one mask not recognised", clause="C17.2")
+    else:
+        rep.decide(guard_ok, "G8.dino-budget", co, "write-guard",
+                   "every mask write is reached only when the block's unmasked patches fit the remaining budget T - D",
+                   ", ".join(guard_why) + " is reachable without the test 'unmasked patches in block <= remaining budget': more "
+                   "patches are masked than the sampled ratio allows (the upper mask ratio can be exceeded)", clause="C17.2")
+    # ---- the count: +1 exactly where a still unmasked patch is set; D += that count ------------------------------------------------
+    ok = True
+    why_c = []
+    block_counts = set()
+    for w, mv, _, _ in writes:
+        conds = fa.conds_at(w)
+        fresh = any(c[0] == "eq" for c in conds) or any(c[0] == "not" for c in conds)
+        incs = [(m, var) for m, var, val in fa.stores() if "." not in var and not var.endswith("[]") and m in body and m != w
+                and fa.conds_at(m) == conds and any(n2 == m for n2, op, e in fa.updates(var, ops=(ast.Add,))
+                                                    if term_to_poly(fa.sym.term(e, n2)).const_value() == 1)]
+        if not fresh:
+            ok = False
+            why_c.append(f"the write at line {fa.line(w)} is not under 'this patch is still unmasked'")
+        if len(incs) != 1:
+            ok = False
+            why_c.append(f"the write at line {fa.line(w)} is not paired with exactly one '+= 1' of the block's count")
+        else:
+            block_counts.add(incs[0][1])
+    # counts derived from the block's count: locals whose every definition is 0, a copy of a count, or '+= <count>'
+    counts = set(block_counts)
+    changed = True
+    locals_ = {var for m, var, val in fa.stores() if "." not in var and not var.endswith("[]") and m in body}
+    while changed:
+        changed = False
+        for v in sorted(locals_ - counts):
+            defs_v = [(m, val) for m, var, val in fa.stores() if var == v and m in body]
+            upd_v = {m: e for m, op, e in fa.updates(v, ops=(ast.Add,))}
+            good = bool(defs_v)
+            uses_count = False
+            for m, val in defs_v:
+                if m in upd_v:
+                    e = upd_v[m]
+                    if isinstance(e, ast.Name) and e.id in counts:
+                        uses_count = True
+                    else:
+                        good = False
+                elif val is not None and fa.sym.term(val, m) == ("const", 0):
+                    pass
+                elif isinstance(val, ast.Name) and val.id in counts:
+                    uses_count = True
+                else:
+                    good = False
+            if good and uses_count:
+                counts.add(v)
+                changed = True
+    running = sorted(v for v in D_vars if v not in block_counts and any(
+        a_[0] == "var" and a_[1] == v for w_, _, _, _ in writes for e_, pol_, c_, tn_ in fa.cond_parts_at(w_)
+        if c_[0] in ("le", "lt") for a_ in term_to_poly(c_[1]).atoms()))
+    for dvar in running:
+        if dvar not in counts:
+            ok = False
+            ups = [ast.unparse(e) for m, op, e in fa.updates(dvar, ops=(ast.Add,)) if m in body]
+            why_c.append(f"'{dvar}' (the running count in the budget test) grows by {', '.join(ups) or 'nothing'}, which is not "
+                         f"the count of newly set patches")
+    rep.decide(ok if (D_vars and writes) else None, "G8.dino-budget", co, "count-new-patches",
+               "the block's count grows by one exactly where an unmasked patch is set, and the mask's running count by that count",
+               "; ".join(why_c) + ": the remaining-budget accounting drifts", clause="C17.2")
+    n_b = block_bounds(prog, rep, C, co, "C17.3")
     rep.floor("block offsets checked (DINO)", n_b, 2)
 
 
@@ -244,7 +313,9 @@ def _returns_batch(rep: Report, fa: FA, fi: FuncInfo, clause: str):
 
 
 def ijepa(prog: Program, rep: Report):
-    prog = prog.raw  # the _sample_* helpers are summarised as units (which generator they draw from), not inlined
+    prog_nf = prog  # normal form (helpers inlined): used for the offset bounds, which must see draw and slice in one function
+    # these helpers are summarised as units (which generator they draw from, what they return); everything else is inlined
+    prog = prog.keeping("_sample_block_size", "step", "_sample_block_mask", "_sample_block_mask_constrained")
     C = prog.cls("KDIjepaMaskCollator")
     rep.rule("G4.step-seeded-sizes", "KDIjepaMaskCollator: the generator that draws the block sizes is torch.Generator().manual_seed("
              "self.step()); _sample_block_size draws only from the generator it is given; step() increments the shared counter "
@@ -367,10 +438,18 @@ def ijepa(prog: Program, rep: Report):
     for n2 in cfg.nodes:
         for y in cfg.walk_node(n2):
             if isinstance(y, ast.Subscript) and isinstance(y.slice, ast.Slice) and y.slice.lower is None and _n(y.slice.upper) \
-                    and any(cfg.reachable(n2, co_) for co_ in coll):
+                    and any(n2 == co_ or cfg.reachable(n2, co_) for co_ in coll):
                 cut_vars.add(_n(y.slice.upper))
-    rep.floor("running minima / common cut lengths (one per mask kind)", len(cut_vars | {v for _, v, _ in minima}), 2)
+    if not (cut_vars | {v for _, v, _ in minima}):
+        rep.unk("G9.own-complements", co, "common-length", "the common cut length is not kept as a running 'v = min(v, len(mask))' "
+                "(another bookkeeping, e.g. a list of lengths): not decided here", clause="C17.4")
+    rep.floor("running minima / common cut lengths (one per mask kind)", len(cut_vars | {v for _, v, _ in minima}), 0)
     for cv in sorted(cut_vars - {v for _, v, _ in minima}):
+        vals = [val for m_, var_, val in fa.stores() if var_ == cv and val is not None]
+        if any(isinstance(y, ast.Call) and _n(y.func) in ("min", "len") for v_ in vals for y in ast.walk(v_)):
+            rep.unk("G9.own-complements", co, f"common-length:other:{cv}", f"'{cv}' is computed from lengths in another way than a "
+                    f"running 'v = min(v, len(mask))': not decided here", clause="C17.4")
+            continue
         rep.bad("G9.own-complements", co, f"common-length:unmaintained:{len(cut_vars)}", f"the masks are cut to '{cv}', which is "
                 f"never updated with the lengths of the sampled masks (no '{cv} = min({cv}, len(mask))'): masks shorter than it "
                 f"keep their own length and cannot be stacked to one common size", clause="C17.4")
@@ -381,7 +460,7 @@ def ijepa(prog: Program, rep: Report):
                 and (cfg.reachable(m, n1) or cfg.reachable(n1, m))]
         upd_ok = mname is not None and bool(apps)
         # the list that is cut with this minimum is the list the masks measured by it were collected into
-        cut_before = bool(cuts) and bool(coll) and any(cfg.reachable(cu, co_) for cu in cuts for co_ in coll)
+        cut_before = bool(cuts) and bool(coll) and any(cu == co_ or cfg.reachable(cu, co_) for cu in cuts for co_ in coll)
         same_list = True
         if apps and cuts:
             inner_list = _n(fa.calls_named("append")[0][1].func.value)
@@ -405,13 +484,15 @@ def ijepa(prog: Program, rep: Report):
                                                                 f"from (another kind's minimum is used)") if x) +
                    ": masks of one kind lose their common size", clause="C17.4")
     _returns_batch(rep, fa, co, "C17.5")
-    n_b = 0
-    for name in ("_sample_block_mask", "_sample_block_mask_constrained"):
-        f = C.methods.get(name)
-        if f is not None:
-            rep.analysed_add("functions", f"{f.module.relpath}:{f.qualname}")
-            n_b += block_bounds(prog, rep, C, f, "C17.3")
-    rep.floor("block offsets checked (I-JEPA)", n_b, 4)
+    # offsets: in the normal form the block samplers are part of collate, so the draw and the slice it feeds are in one function
+    # whatever helpers they were written in; helpers that cannot be inlined are looked at one by one
+    Cn = prog_nf.cls("KDIjepaMaskCollator")
+    n_b = block_bounds(prog_nf, rep, Cn, Cn.methods["collate"], "C17.3")
+    if n_b == 0:
+        for f in Cn.methods.values():
+            if f.name not in ("collate", "__init__"):
+                n_b += block_bounds(prog_nf, rep, Cn, f, "C17.3")
+    rep.floor("block offsets checked (I-JEPA)", n_b, 2)
     # the size clamp that makes the offset ranges non-empty
     if bs is not None:
         ba = fa_of(prog, bs)
